@@ -34,53 +34,110 @@ func init() {
 			"(log-first) every action list that contains a vote/proposal/start-round begins with the WriteWAL of the triggering input, and the vote counter records each message before any early return; (commit-order) OnCommit(success) → DeleteWALEntries → Flush; (replay-exhaustive) ProcessWAL and the record envelope cover every wal.Entry type; " +
 			"(replay-determinism) replay re-derives nothing from a non-logged non-deterministic source. Not decided: equality of the recovered consensus state, timers, what survives a crash (C14)."
 		var visible []Site
-		nExec := 0
+		// pass 1: per driver function, its directly visible effects and its flush (own, or in a same-package helper)
+		type drvInfo struct {
+			vis, lifted  []Site
+			flush, hsite *Site
+			liftedUp     bool
+		}
+		infos := map[*ssa.Function]*drvInfo{}
+		var order []*ssa.Function
 		for _, ex := range p.sortedFuncs() {
 			if pkgRelOf(ex) != "consensus/driver" || ex.Origin() != nil {
 				continue
 			}
-			var vis []Site
-			var flush *Site
+			di := &drvInfo{}
 			ss := sitesOf(ex)
 			for i := range ss {
 				s := &ss[i]
-				if s.Method != nil && s.Method.Name() == "Flush" && flush == nil {
-					flush = s
+				if s.Method != nil && s.Method.Name() == "Flush" && di.flush == nil {
+					di.flush = s
 				}
-				if isBroadcastInvoke(*s) || (strings.HasSuffix(s.CalleeName(), ").commit") && ex.Name() == "execute") {
-					vis = append(vis, *s)
+				if isBroadcastInvoke(*s) || (strings.HasSuffix(s.CalleeName(), ").commit") && (ex.Name() == "execute" || p.calledOnlyFrom(ex, "execute", 0))) {
+					di.vis = append(di.vis, *s)
 				}
 			}
-			if len(vis) == 0 {
+			infos[ex] = di
+			order = append(order, ex)
+		}
+		// the flush may have been moved into a same-package helper (one that performs no visible effect itself)
+		for _, ex := range order {
+			di := infos[ex]
+			if di.flush != nil {
 				continue
 			}
-			// the flush may have been moved into a same-package helper called from here
-			var hsite *Site
-			if flush == nil {
-				for i := range ss {
-					g := ss[i].Callee
-					if g == nil {
-						continue
-					}
-					g = canonGeneric(g)
-					if pkgRelOf(g) != pkgRelOf(ex) || len(g.Blocks) == 0 {
-						continue
-					}
-					for _, hs := range sitesOf(g) {
-						if hs.Method != nil && hs.Method.Name() == "Flush" && hsite == nil {
-							hs := hs
-							flush, hsite = &hs, &ss[i]
-						}
+			ss := sitesOf(ex)
+			for i := range ss {
+				g := ss[i].Callee
+				if g == nil {
+					continue
+				}
+				gi := infos[canonGeneric(g)]
+				if gi == nil || gi.flush == nil || gi.hsite != nil || len(gi.vis) > 0 || di.hsite != nil {
+					continue
+				}
+				// a flush helper is called ahead of the effects it covers, not in one of their arms
+				ahead := len(di.vis) > 0
+				for _, v := range di.vis {
+					if !dominatesInstr(ss[i].Instr, v.Instr) {
+						ahead = false
 					}
 				}
+				if !ahead {
+					continue
+				}
+				di.flush, di.hsite = gi.flush, &ss[i]
 			}
-			nExec++
-			_ = nExec
-			c.saw(qname(ex))
+		}
+		// pass 2: a function that performs visible effects without flushing itself hands the obligation to its callers:
+		// the call to it is a visible effect of the caller (two levels at most)
+		for round := 0; round < 2; round++ {
+			for _, ex := range order {
+				di := infos[ex]
+				if di.liftedUp || di.flush != nil || len(di.vis)+len(di.lifted) == 0 {
+					continue
+				}
+				callers := p.callersOf(ex)
+				if len(callers) == 0 {
+					continue
+				}
+				all := true
+				for _, cs := range callers {
+					if infos[canonGeneric(rootOf(cs.Fn))] == nil {
+						all = false
+					}
+				}
+				if !all {
+					continue
+				}
+				for _, cs := range callers {
+					ci := infos[canonGeneric(rootOf(cs.Fn))]
+					ci.lifted = append(ci.lifted, cs)
+				}
+				di.liftedUp = true
+			}
+		}
+		for _, ex := range order {
+			di := infos[ex]
 			if !p.InFixture(fnPos(ex)) {
-				visible = append(visible, vis...)
+				visible = append(visible, di.vis...)
 			}
-			c13FlushRule(c, ex, flush, hsite, vis)
+			if di.liftedUp {
+				// its effects are covered where it is called: one obligation per effect, decided at the call sites
+				for _, v := range di.vis {
+					construct := qname(ex) + " → " + v.CalleeName()
+					if isBroadcastInvoke(v) {
+						construct = qname(ex) + " → " + typeShort(v.Recv.Type()) + ".Broadcast(" + typeShort(v.Args()[len(v.Args())-1].Type()) + ")"
+					}
+					c.ok("flush-before-visible", construct, p.Pos(v.Pos()), "performed by a helper without a flush of its own: every call of the helper is checked as a visible effect of its caller")
+				}
+				continue
+			}
+			if len(di.vis)+len(di.lifted) == 0 {
+				continue
+			}
+			c.saw(qname(ex))
+			c13FlushRule(c, ex, di.flush, di.hsite, append(append([]Site{}, di.vis...), di.lifted...))
 		}
 		if len(visible) < 4 {
 			c.und("flush-before-visible", "Driver.execute:visible", "", fmt.Sprintf("only %d visible effects found (expected 3 broadcasts + commit)", len(visible)))
@@ -115,7 +172,7 @@ func init() {
 			for _, s := range sitesOf(fn) {
 				if isBroadcastInvoke(s) {
 					nb++
-					okb := pkgRelOf(fn) == "consensus/driver" && rootOf(fn).Name() == "execute"
+					okb := pkgRelOf(fn) == "consensus/driver" && (rootOf(fn).Name() == "execute" || p.calledOnlyFrom(fn, "execute", 0))
 					// p2p package's own plumbing (buffered broadcasters wrapping each other) is allowed
 					if strings.HasPrefix(pkgRelOf(fn), "consensus/p2p") {
 						okb = true
